@@ -570,6 +570,125 @@ def l_name(P):
     P.prove("a_name_iterates_to_itself", isinstance(pieces, (list, tuple)) and len(pieces) == 1 and pieces[0] is res)
 
 
+# ============================================================================ string annotations
+def strings_contract(name, fns, **kw):
+    def deco(driver):
+        def wrapped(P):
+            install(P)
+            P.expects["clause"] = "strings"
+            driver(P)
+            P.cover(name)
+        contract("C03", f"strings.{name}", [EX + f for f in fns], replay="replay_expression", **kw)(wrapped)
+        return driver
+    return deco
+
+
+@strings_contract("get_expression.auto_mode", ["get_expression"], floor=2)
+def s_get_expression(P):
+    """parse_strings=None: strings are parsed iff the module does not postpone annotation evaluation; explicit values are passed on unchanged."""
+    nd, ch = child_node(P, "node")
+    future = z3.Bool("imports_future_annotations")
+    no_module = z3.Bool("parent_has_no_module")
+    module = SObj("Module", {"imports_future_annotations": SBool(future)}, ident=z3.Int("module_id"), frozen=True)
+    parent = SObj("Class", {}, ident=z3.Int("scope_id"), frozen=True)
+
+    def module_of(P_, o):
+        if P_.branch(no_module):
+            raise PyExc(P_.mk_exc("ValueError", "no module"))
+        return module
+    P.attr_hooks[("Class", "module")] = module_of
+    mode = z3.Int("parse_strings_argument")      # 0 None, 1 False, 2 True
+    P.assume(z3.And(mode >= 0, mode <= 2))
+    arg = None if P.branch(mode == 0) else (False if P.branch(mode == 1) else True)
+    kind, res = outcome(P, lambda: call(P, EX + "get_expression", nd, parent, parse_strings=arg))
+    if kind == "raise":
+        P.prove("never_raises", False, exc=P.resolve_cls(res))
+        return
+    built = P.ghost["built"]
+    P.prove("builds_the_node_once", len(built) == 1 and built[0][0] is nd)
+    if len(built) == 1:
+        got = built[0][1].get("parse_strings")
+        want = z3.If(mode == 0, z3.And(z3.Not(no_module), z3.Not(future)), mode == 2)
+        P.prove("strings_parsed_iff_requested_or_annotations_are_evaluated_eagerly", zbool(got) == want)
+    kind, res = outcome(P, lambda: call(P, EX + "get_expression", None, parent))
+    P.prove("no_node_gives_no_expression", kind == "ok" and res is None)
+
+
+@strings_contract("_build_subscript.literal_rule", ["_build_subscript"], floor=3, split=16)
+def s_subscript(P):
+    """Inside X[...] strings are literals iff X resolves to typing.Literal / typing_extensions.Literal (however X is spelled); otherwise the
+    parse-strings mode of the context is passed on to the slice; the left side is built without it."""
+    vn, v = child_node(P, "value")
+    sn, sl = child_node(P, "slice")
+    names = [k for k, _ in CHILD_KINDS]
+    P.assume(z3.Or(v.k == names.index("ExprName"), v.k == names.index("ExprCall"), v.k == names.index("str")))
+    CANON = z3.String("canonical_path_of_value")
+    SPELL = z3.String("spelling_of_value")
+    P.attr_hooks[("ExprName", "canonical_path")] = lambda P_, o: SStr(CANON) if o.fields.get("__child") else models.NOATTR
+    P.attr_hooks[("ExprName", "path")] = lambda P_, o: SStr(SPELL) if o.fields.get("__child") else models.NOATTR
+    parse = z3.Bool("parse_strings")
+    lit_in = z3.Bool("already_inside_literal")
+    ps = True if P.branch(parse) else False
+    li = True if P.branch(lit_in) else False
+    parent = SObj("Module", {}, ident=z3.Int("scope_id"), frozen=True)
+    kind, res = outcome(P, lambda: call(P, EX + "_build_subscript", SObj("ast.Subscript", {"value": vn, "slice": sn}, frozen=True), parent, parse_strings=ps, literal_strings=li))
+    if kind == "raise":
+        P.prove("never_raises", False, exc=P.resolve_cls(res))
+        return
+    flags = {id(nd): kw for nd, kw in P.ghost["built"]}
+    skw, vkw = flags.get(id(sn), {}), flags.get(id(vn), {})
+    is_name = v.k == names.index("ExprName")
+    is_literal = z3.And(is_name, z3.Or(CANON == z3.StringVal("typing.Literal"), CANON == z3.StringVal("typing_extensions.Literal")))
+    P.witness.update(canonical=SStr(CANON), spelling=SStr(SPELL))
+    P.expects["family"] = "Literal"
+    P.prove("slice_parses_strings_iff_the_context_does", zbool(bool(skw.get("parse_strings", False))) == parse)
+    got_lit = skw.get("literal_strings", False)
+    P.prove("strings_inside_literal_are_never_parsed", z3.Implies(parse, zbool(got_lit) == z3.Or(lit_in, is_literal)), got=str(got_lit))
+    P.prove("slice_is_subscript_content", skw.get("in_subscript") is True)
+    P.prove("left_side_is_built_plainly", not vkw.get("parse_strings") and not vkw.get("literal_strings") and not vkw.get("in_subscript"))
+
+
+@strings_contract("_build_constant.decision", ["_build_constant"], floor=2, split=16)
+def s_constant(P):
+    """A string constant is parsed as code iff parse_strings and not literal_strings (and it is not bare f-string text); text that does not compile
+    stays a string literal; every other constant is its repr (Ellipsis: ...)."""
+    flags = {n: z3.Bool(n) for n in ("in_formatted_str", "in_joined_str", "parse_strings", "literal_strings")}
+    vals = {n: (True if P.branch(b) else False) for n, b in flags.items()}
+    is_str = z3.Bool("value_is_a_string")
+    text = P.fresh_str("string_value")
+    compiles = z3.Bool("string_compiles")
+    parsed_body = SObj("ast.expr", {"__as_child": Child(P, "parsed")}, ident=z3.Int("parsed_node"), frozen=True)
+
+    def b_compile(P_, a, k):
+        if P_.branch(compiles):
+            return SObj("ast.Expression", {"body": parsed_body}, frozen=True)
+        raise PyExc(P_.mk_exc("SyntaxError", "invalid syntax"))
+    P.opaque_hooks["builtin:compile"] = b_compile
+    parent = SObj("Module", {}, ident=z3.Int("scope_id"), frozen=True)
+    if P.branch(is_str):
+        value = text
+    else:
+        value = P.fresh_int("number_value") if P.branch(z3.Bool("value_is_a_number")) else Ellipsis
+    node = SObj("ast.Constant", {"value": value}, frozen=True)
+    def b_repr(P_, a, k):
+        if isinstance(a[0], (str, SStr)):
+            r = ufn("REPR", StrS, StrS)(zstr(a[0]))
+            P_.assume(z3.Length(r) >= 2)       # a string literal has its two quotes
+            return SStr(r)
+        return SStr(z3.String("repr_of_number"))
+    P.opaque_hooks["builtin:repr"] = b_repr
+    kind, res = outcome(P, lambda: call(P, EX + "_build_constant", node, parent, **vals))
+    if kind == "raise":
+        P.prove("never_raises", False, exc=P.resolve_cls(res))
+        return
+    built = P.ghost["built"]
+    should_parse = z3.And(is_str, flags["parse_strings"], z3.Not(flags["literal_strings"]), z3.Not(z3.And(flags["in_joined_str"], z3.Not(flags["in_formatted_str"]))), compiles)
+    P.expects["family"] = "strings"
+    P.prove("string_parsed_iff_annotation_context_and_not_literal", z3.BoolVal(len(built) == 1) == should_parse, built=len(built))
+    if len(built) == 1:
+        P.prove("parsed_text_is_built_in_the_same_scope", built[0][0] is parsed_body)
+
+
 # ============================================================================ tables
 def lemmas(tier, seed):
     """Operator tables of the real source against the language's operator spelling; _node_map total over the expression node classes."""
@@ -583,10 +702,10 @@ def lemmas(tier, seed):
     def drv(P):
         mi = P.index.module("_griffe.expressions")
         for nm in ("_unary_op_map", "_binary_op_map", "_bool_op_map", "_compare_op_map", "_binary_op_precedence", "_node_map"):
-            got[nm] = P.eval_in_module(mi, mi.assigns[nm])
+            got[nm] = P.eval_in_module(mi, mi.assigns[nm]) if nm in mi.assigns else {}
         for nm in ("_PREC_TUPLE", "_PREC_YIELD", "_PREC_TEST", "_PREC_OR", "_PREC_AND", "_PREC_NOT", "_PREC_CMP", "_PREC_BOR", "_PREC_BXOR", "_PREC_BAND", "_PREC_SHIFT",
                    "_PREC_ARITH", "_PREC_TERM", "_PREC_FACTOR", "_PREC_POWER", "_PREC_ATOM"):
-            got[nm] = P.eval_in_module(mi, mi.assigns[nm])
+            got[nm] = P.eval_in_module(mi, mi.assigns[nm]) if nm in mi.assigns else None
     ex.run(drv)
     out = []
 
@@ -604,6 +723,37 @@ def lemmas(tier, seed):
     real_prec = got.get("_binary_op_precedence", {})
     want = {o: ladder[lvl] for o, lvl in BINOPS.items()} if all(isinstance(x, int) for x in ladder) else None
     out.append({"name": "table._binary_op_precedence", "ok": real_prec == want, "detail": "binary operators sit on the level the language reference gives them"})
+    # call sites: only annotations are built in auto mode; decorators, base classes, defaults, values, conditions never parse strings
+    sites, bad = 0, []
+    for modname in ("_griffe.agents.visitor", "_griffe.expressions", "_griffe.agents.inspector", "_griffe.extensions.dataclasses", "_griffe.agents.nodes.exports"):
+        mi = idx.module(modname)
+        if mi is None:
+            continue
+        for n in _ast.walk(mi.tree):
+            if isinstance(n, _ast.Call) and isinstance(n.func, _ast.Name) and n.func.id in ("safe_get_expression", "get_expression"):
+                enclosing = next((f.name for f in _ast.walk(mi.tree) if isinstance(f, (_ast.FunctionDef, _ast.AsyncFunctionDef)) and f.lineno <= n.lineno <= f.end_lineno and
+                                  any(x is n for x in _ast.walk(f))), "<module>")
+                if enclosing in ("safe_get_expression",):
+                    continue      # the wrapper forwards its own argument
+                kw = {k.arg: k.value for k in n.keywords}
+                ps = kw.get("parse_strings")
+                sites += 1
+                if enclosing == "<module>":
+                    continue      # functools.partial definitions are checked below
+                if not (isinstance(ps, _ast.Constant) and ps.value is False):
+                    bad.append(f"{modname.split('.')[-1]}.{enclosing}:{n.lineno}")
+    emi = idx.module("_griffe.expressions")
+    partial_modes = {}
+    for st in emi.tree.body:
+        if isinstance(st, _ast.Assign) and isinstance(st.value, _ast.Call) and isinstance(st.value.func, _ast.Name) and st.value.func.id == "partial":
+            kw = {k.arg: k.value for k in st.value.keywords}
+            v = kw.get("parse_strings")
+            partial_modes[st.targets[0].id] = v.value if isinstance(v, _ast.Constant) else "?"
+    want_modes = {"get_annotation": None, "safe_get_annotation": None, "get_base_class": False, "safe_get_base_class": False, "get_condition": False, "safe_get_condition": False}
+    out.append({"name": "strings.only_annotations_are_built_in_auto_mode", "ok": sites > 0 and not bad and all(partial_modes.get(k, "?") == v for k, v in want_modes.items()),
+                "detail": f"{sites} direct calls of safe_get_expression / get_expression outside the annotation helpers pass parse_strings=False; the annotation helpers use "
+                          f"auto mode, base-class and condition helpers never parse" + (f"; offending call sites: {bad}" if bad else "") +
+                          ("" if all(partial_modes.get(k, "?") == v for k, v in want_modes.items()) else f"; helper modes: {partial_modes}")})
     handled = {k.name.split(".")[-1] for k in got.get("_node_map", {})}
     expr_classes = {n for n in dir(_ast) if isinstance(getattr(_ast, n), type) and issubclass(getattr(_ast, n), _ast.expr) and n not in ("expr", "Await", "Num", "Str", "Bytes",
                     "NameConstant", "Ellipsis", "Index", "ExtSlice", "slice", "Suite", "AugLoad", "AugStore", "Param")} | {"comprehension", "keyword"}
